@@ -19,7 +19,8 @@ func NewPlanarYUVLuminanceSource(yuvData []byte,
 	dataWidth, dataHeight, left, top, width, height int,
 	reverseHorizontal bool) (LuminanceSource, error) {
 
-	if left < 0 || top < 0 || left+width > dataWidth || top+height > dataHeight {
+	if left < 0 || top < 0 || width < 0 || height < 0 ||
+		left+width > dataWidth || top+height > dataHeight {
 		return nil, errors.New("IllegalArgumentException: Crop rectangle does not fit within image data")
 	}
 
@@ -92,7 +93,8 @@ func (this *PlanarYUVLuminanceSource) IsCropSupported() bool {
 }
 
 func (this *PlanarYUVLuminanceSource) Crop(left, top, width, height int) (LuminanceSource, error) {
-	if left < 0 || top < 0 || left+width > this.GetWidth() || top+height > this.GetHeight() {
+	if left < 0 || top < 0 || width < 0 || height < 0 ||
+		left+width > this.GetWidth() || top+height > this.GetHeight() {
 		return nil, errors.New("IllegalArgumentException: Crop rectangle does not fit within image data")
 	}
 	return NewPlanarYUVLuminanceSource(
